@@ -108,7 +108,11 @@ HasGap == \E i \in 1..Len(obj.frm) : ~Filled(obj.frm[i])
 Done(o, op, out, sets) ==
   /\ obj' = o /\ lastOp' = op /\ lastOut' = out /\ lastSets' = sets /\ hist' = Append(hist, op) /\ lastRes' = <<>>
   /\ inScope' = (inScope /\ ~(out = "ok" /\ op.op \in {"DeclPoint", "DeclAnalog", "AddPointCols", "AddAnalogCols"} /\ HasGap)
-                          /\ ~(out = "ok" /\ op.op = "AddFrame" /\ ~Conforming(IF "c" \in DOMAIN op THEN callers[op.c] ELSE NormFrame(op.frame))))
+                          /\ ~(out = "ok" /\ op.op = "AddFrame" /\ ~Conforming(IF "c" \in DOMAIN op THEN callers[op.c] ELSE NormFrame(op.frame)))
+                          \* the caller overwrote a derived POINT / ANALOG parameter (anything but the two rates) by hand: the declared
+                          \* shape is then whatever the caller says, C05's clauses are not evaluated for the rest of the history
+                          /\ ~(out = "ok" /\ op.op = "SetParam" /\ op.g \in {sPOINT, sANALOG} /\ op.p.n # sRATE
+                                /\ op.p.n \in {sUSED, sFRAMES, sLABELS, sDESCRIPTIONS, sUNITS, sSCALE, sOFFSET, sDATA_START}))
 
 AddFrameF(f, idx, op) ==
   LET out == FrameOutcome(f) IN
@@ -498,6 +502,10 @@ NamesTrimmed ==
 HasGapFrame(o) == \E i \in 1..Len(o.frm) : ~Filled(o.frm[i])
 \* known finding C01/C03 gap-frames-on-disk: empty frames created by extension are written as nothing
 KF_GapFramesOnDisk(o) == HasGapFrame(o)
+\* known finding C01 zero-point-rate-with-analogs: the number of sub-frames per frame is not stored in the parameters; the reader
+\* derives it from ANALOG:RATE / POINT:RATE and assumes 1 when POINT:RATE is 0, so analog data with several sub-frames per frame
+\* saved while POINT:RATE is still 0 does not load back (the carve-out is exactly that state class)
+KF_ZeroPointRateWithAnalogs(o) == FTrunc(Val1(o.grp, sPOINT, sRATE)) = 0 /\ HdrAnalogs(o.hdr) > 0 /\ o.hdr.perframe # 1
 RoundTrip ==
   (Mand(obj.grp) /\ ~KF_GapFramesOnDisk(obj)) =>
      LET b == WriterModel(obj)  r == ReaderModel(b) IN
@@ -517,7 +525,7 @@ SaveIdempotent ==
         /\ WriterModel(r2.obj) = b2                                 \* and the next save is byte-identical
 \* the three I/O invariants with the file model evaluated once per state (TLC does not share work between invariants)
 IOInv ==
-  (Mand(obj.grp) /\ Fits(obj) /\ ~KF_GapFramesOnDisk(obj)) =>
+  (Mand(obj.grp) /\ Fits(obj) /\ ~KF_GapFramesOnDisk(obj) /\ ~KF_ZeroPointRateWithAnalogs(obj)) =>
      LET b1 == WriterModel(obj)  r1 == ReaderModel(b1)
          c01 == r1.out = "ok" /\ r1.end = Len(b1) /\ Content(r1.obj) = Content(obj)
          c03 == SelfConsistentKF(b1, obj)
